@@ -4,618 +4,7 @@ use std::convert::{TryFrom, TryInto};
 verus! {
 global size_of usize == 8;
 //@ include units/common/float.inc.rs
-pub type Int = isize;
-//@ include units/raw_geom/geom.inc.rs
-
-// =====================================================================================================
-// more of layout21raw's data model (extracted)
-// =====================================================================================================
-//@ item layout21raw/src/geom.rs :: enum Dir
-//@   derive Debug, Clone, Copy
-//@ end
-// R9: the `#[enum_dispatch(ShapeTrait)]` attribute is dropped; the dispatch it generates is modelled below
-//@ item layout21raw/src/geom.rs :: enum Shape
-//@ end
-//@ item layout21raw/src/data.rs :: enum LayerPurpose
-//@ end
-/// R5: slotmap key (opaque)
-#[derive(Debug, Clone, Copy)]
-pub struct LayerKey { pub k: u64 }
-//@ item layout21raw/src/data.rs :: struct Element
-//@ end
-pub assume_specification [isize::abs] (x: isize) -> (r: isize) requires x > isize::MIN ensures r == (if x >= 0 { x as int } else { -x });
-impl Rect {
-//@ fn layout21raw/src/geom.rs :: impl ShapeTrait for Rect :: fn orientation
-//@   spec
-//|     requires small(self.p0), small(self.p1),
-//@ end
-}
-impl Polygon {
-//@ fn layout21raw/src/geom.rs :: impl ShapeTrait for Polygon :: fn orientation
-//@ end
-}
-impl Path {
-//@ fn layout21raw/src/geom.rs :: impl ShapeTrait for Path :: fn orientation
-//@ end
-}
-/// well-formedness under which the shape operations are defined (machine-integer ranges, Manhattan paths, non-empty point lists)
-pub open spec fn shape_ok(s: Shape) -> bool {
-    match s {
-        Shape::Rect(r) => small(r.p0) && small(r.p1),
-        Shape::Polygon(p) => p.points.len() >= 1 && p.points.len() < 0x7fff_ffff_ffff_ffff && all_small(p.points@)
-            && -0x2000_0000_0000_0000 < p.points@[0].x < 0x2000_0000_0000_0000 && -0x2000_0000_0000_0000 < p.points@[0].y < 0x2000_0000_0000_0000,
-        Shape::Path(p) => p.points.len() >= 2 && manhattan(p.points@) && all_small(p.points@) && p.width <= 0x2000_0000_0000_0000,
-    }
-}
-/// ORACLE: the closed region a shape covers (C13's definitions)
-pub open spec fn shape_holds(s: Shape, q: Point) -> bool {
-    match s {
-        Shape::Rect(r) => in_closed_box(r.p0, r.p1, q),
-        Shape::Polygon(p) => inside(p.points@, q),
-        Shape::Path(p) => path_flush(p.points@, (p.width / 2) as int, q, p.points.len() - 1),
-    }
-}
-impl Shape {
-    // model of the enum_dispatch-generated forwarding (assumption: the macro forwards each method to the variant)
-    pub fn label_location(&self) -> (r: LayoutResult<Point>)
-        requires shape_ok(*self),
-        ensures r is Ok ==> shape_holds(*self, r->Ok_0),
-    { match self { Shape::Rect(x) => x.label_location(), Shape::Polygon(x) => x.label_location(), Shape::Path(x) => x.label_location() } }
-    pub fn orientation(&self) -> Dir
-        requires shape_ok(*self),
-    { match self { Shape::Rect(x) => x.orientation(), Shape::Polygon(x) => x.orientation(), Shape::Path(x) => x.orientation() } }
-}
-impl vstd::std_specs::convert::FromSpecImpl<std::num::TryFromIntError> for LayoutError {
-    open spec fn obeys_from_spec() -> bool { true }
-    open spec fn from_spec(e: std::num::TryFromIntError) -> LayoutError { LayoutError { } }
-}
-impl From<std::num::TryFromIntError> for LayoutError { fn from(e: std::num::TryFromIntError) -> Self { LayoutError { } } }
-
-// =====================================================================================================
-// gds21's element structs (extracted from gds21/src/data.rs; derives and serde/builder attributes dropped, R4)
-// =====================================================================================================
-pub mod gds21 {
-    use super::*;
-//@ item gds21/src/data.rs :: struct GdsPoint
-//@   derive Debug, Clone, Copy
-//@ end
-//@ item gds21/src/data.rs :: struct GdsStrans
-//@ end
-//@ item gds21/src/data.rs :: struct GdsPresentation
-//@ end
-//@ item gds21/src/data.rs :: struct GdsElemFlags
-//@ end
-//@ item gds21/src/data.rs :: struct GdsPlex
-//@ end
-//@ item gds21/src/data.rs :: struct GdsProperty
-//@ end
-//@ item gds21/src/data.rs :: struct GdsPath
-//@ end
-//@ item gds21/src/data.rs :: struct GdsBoundary
-//@ end
-//@ item gds21/src/data.rs :: struct GdsStructRef
-//@ end
-//@ item gds21/src/data.rs :: struct GdsArrayRef
-//@ end
-//@ item gds21/src/data.rs :: struct GdsTextElem
-//@ end
-//@ item gds21/src/data.rs :: struct GdsNode
-//@ end
-//@ item gds21/src/data.rs :: struct GdsBox
-//@ end
-//@ item gds21/src/data.rs :: enum GdsElement
-//@ end
-//@ item gds21/src/data.rs :: struct GdsLayerSpec
-//@ end
-    impl GdsPoint {
-//@ fn gds21/src/data.rs :: impl GdsPoint :: fn new
-//@   ret r
-//@   spec
-//|         ensures r.x == x, r.y == y,
-//@ end
-        /// ASSUMED element-wise contract of `pts.iter().map(|pt| Self::new(pt.0, pt.1)).collect()` (iterator idiom, rule R6)
-        #[verifier::external_body]
-        pub fn vec(pts: &[(i32, i32)]) -> (r: Vec<Self>)
-            ensures r@.len() == pts@.len(), forall|i: int| 0 <= i < pts@.len() ==> (#[trigger] r@[i]).x == pts@[i].0 && r@[i].y == pts@[i].1,
-        { pts.iter().map(|pt| Self::new(pt.0, pt.1)).collect() }
-    }
-    // ---- model of #[derive(Default)] (every field its type's default) — assumption ----
-    impl Default for GdsStrans { fn default() -> (r: Self) ensures !r.reflected, !r.abs_mag, !r.abs_angle, r.mag is None, r.angle is None { GdsStrans { reflected: false, abs_mag: false, abs_angle: false, mag: None, angle: None } } }
-    impl Default for GdsBoundary { fn default() -> (r: Self) ensures r.layer == 0, r.datatype == 0, r.xy@.len() == 0, r.elflags is None, r.plex is None, r.properties@.len() == 0 { GdsBoundary { layer: 0, datatype: 0, xy: Vec::new(), elflags: None, plex: None, properties: Vec::new() } } }
-    impl Default for GdsPath { fn default() -> (r: Self) ensures r.layer == 0, r.datatype == 0, r.xy@.len() == 0, r.width is None, r.path_type is None, r.begin_extn is None, r.end_extn is None, r.elflags is None, r.plex is None, r.properties@.len() == 0 { GdsPath { layer: 0, datatype: 0, xy: Vec::new(), width: None, path_type: None, begin_extn: None, end_extn: None, elflags: None, plex: None, properties: Vec::new() } } }
-    impl Default for GdsTextElem { fn default() -> (r: Self) ensures r.layer == 0, r.texttype == 0, r.xy.x == 0, r.xy.y == 0, r.presentation is None, r.path_type is None, r.width is None, r.strans is None, r.elflags is None, r.plex is None, r.properties@.len() == 0 { GdsTextElem { string: String::new(), layer: 0, texttype: 0, xy: GdsPoint { x: 0, y: 0 }, presentation: None, path_type: None, width: None, strans: None, elflags: None, plex: None, properties: Vec::new() } } }
-    impl Default for GdsStructRef { fn default() -> (r: Self) ensures r.xy.x == 0, r.xy.y == 0, r.strans is None, r.elflags is None, r.plex is None, r.properties@.len() == 0 { GdsStructRef { name: String::new(), xy: GdsPoint { x: 0, y: 0 }, strans: None, elflags: None, plex: None, properties: Vec::new() } } }
-//@ item gds21/src/data.rs :: struct GdsUnits
-//@ end
-    impl GdsUnits {
-//@ fn gds21/src/data.rs :: impl GdsUnits :: fn new
-//@   ret r
-//@   spec
-//|         ensures r.0 == num1, r.1 == num2,
-//@ end
-    }
-    /// R5: GdsLibrary reduced to name, units and structures (version, dates and the unsupported fields are not touched by the raw exporter)
-    pub struct GdsLibrary { pub name: String, pub units: GdsUnits, pub structs: Vec<GdsStruct> }
-    impl GdsLibrary {
-        #[verifier::external_body]
-        pub fn new(name: &String) -> (r: Self) ensures r.name@ == name@, r.structs@.len() == 0 { unimplemented!() }
-    }
-    /// R5: GdsStruct without its dates (not read by the raw exporter); `new(name)` = that name, no elements
-    pub struct GdsStruct { pub name: String, pub elems: Vec<GdsElement> }
-    impl GdsStruct {
-        #[verifier::external_body]
-        pub fn new(name: &String) -> (r: Self) ensures r.name@ == name@, r.elems@.len() == 0 { unimplemented!() }
-    }
-    // ---- model of #[derive(derive_more::From)] on GdsElement — assumption ----
-    impl vstd::std_specs::convert::FromSpecImpl<GdsStructRef> for GdsElement { open spec fn obeys_from_spec() -> bool { true } open spec fn from_spec(b: GdsStructRef) -> GdsElement { GdsElement::GdsStructRef(b) } }
-    impl From<GdsStructRef> for GdsElement { fn from(b: GdsStructRef) -> GdsElement { GdsElement::GdsStructRef(b) } }
-    impl vstd::std_specs::convert::FromSpecImpl<GdsBoundary> for GdsElement { open spec fn obeys_from_spec() -> bool { true } open spec fn from_spec(b: GdsBoundary) -> GdsElement { GdsElement::GdsBoundary(b) } }
-    impl From<GdsBoundary> for GdsElement { fn from(b: GdsBoundary) -> GdsElement { GdsElement::GdsBoundary(b) } }
-    impl vstd::std_specs::convert::FromSpecImpl<GdsPath> for GdsElement { open spec fn obeys_from_spec() -> bool { true } open spec fn from_spec(b: GdsPath) -> GdsElement { GdsElement::GdsPath(b) } }
-    impl From<GdsPath> for GdsElement { fn from(b: GdsPath) -> GdsElement { GdsElement::GdsPath(b) } }
-    impl vstd::std_specs::convert::FromSpecImpl<GdsTextElem> for GdsElement { open spec fn obeys_from_spec() -> bool { true } open spec fn from_spec(b: GdsTextElem) -> GdsElement { GdsElement::GdsTextElem(b) } }
-    impl From<GdsTextElem> for GdsElement { fn from(b: GdsTextElem) -> GdsElement { GdsElement::GdsTextElem(b) } }
-}
-
-// =====================================================================================================
-// SPEC
-// =====================================================================================================
-pub open spec fn fits32(p: Point) -> bool { i32::MIN <= p.x <= i32::MAX && i32::MIN <= p.y <= i32::MAX }
-pub open spec fn same_pt(g: gds21::GdsPoint, p: Point) -> bool { g.x == p.x && g.y == p.y }
-pub open spec fn same_pts(g: Seq<gds21::GdsPoint>, p: Seq<Point>) -> bool { g.len() == p.len() && forall|i: int| 0 <= i < p.len() ==> same_pt(#[trigger] g[i], p[i]) }
-pub open spec fn all_fit32(p: Seq<Point>) -> bool { forall|i: int| 0 <= i < p.len() ==> fits32(#[trigger] p[i]) }
-
-/// GDSII element `g` is the export of `shape` on layer/datatype `ls`
-pub open spec fn shape_gds(shape: Shape, g: gds21::GdsElement, ls: gds21::GdsLayerSpec) -> bool {
-    match (shape, g) {
-        // rectangle: five points, the four corners starting at p0, closed back at p0
-        (Shape::Rect(rc), gds21::GdsElement::GdsBoundary(b)) => b.layer == ls.layer && b.datatype == ls.xtype && b.xy@.len() == 5
-            && same_pt(b.xy@[0], rc.p0) && b.xy@[1].x == rc.p1.x && b.xy@[1].y == rc.p0.y && same_pt(b.xy@[2], rc.p1)
-            && b.xy@[3].x == rc.p0.x && b.xy@[3].y == rc.p1.y && same_pt(b.xy@[4], rc.p0),
-        // polygon: its n points, then the first again
-        (Shape::Polygon(p), gds21::GdsElement::GdsBoundary(b)) => b.layer == ls.layer && b.datatype == ls.xtype
-            && b.xy@.len() == p.points@.len() + 1 && same_pts(b.xy@.take(p.points@.len() as int), p.points@) && same_pt(b.xy@.last(), p.points@[0]),
-        // path: exactly its own points (an open path stays open), and its width
-        (Shape::Path(p), gds21::GdsElement::GdsPath(b)) => b.layer == ls.layer && b.datatype == ls.xtype
-            && same_pts(b.xy@, p.points@) && b.width == Some(p.width as i32) && p.width <= i32::MAX,
-        _ => false,
-    }
-}
-/// GDSII element `g` is the net label of `shape`: a text with the net name on layer/texttype `ls`, placed inside the shape (C07), so that re-import finds it
-pub open spec fn label_gds(g: gds21::GdsElement, net: Seq<char>, shape: Shape, ls: gds21::GdsLayerSpec) -> bool {
-    match g {
-        gds21::GdsElement::GdsTextElem(t) => t.layer == ls.layer && t.texttype == ls.xtype && t.string@ == net
-            && exists|q: Point| same_pt(t.xy, q) && shape_holds(shape, q),
-        _ => false,
-    }
-}
-/// the (layer number, data/text type) the library's layer table assigns to a (layer key, purpose) pair — assumption (export_layerspec is modelled)
-pub uninterp spec fn nums_of(k: LayerKey, p: LayerPurpose) -> Option<gds21::GdsLayerSpec>;
-pub open spec fn shape_pre(s: Shape) -> bool { shape_ok(s) && match s { Shape::Polygon(p) => p.points.len() >= 1, Shape::Path(p) => p.points.len() >= 1, _ => true } }
-/// the GDSII elements one raw element exports to: its shape, then (only if it has a net) its label on the layer's Label purpose
-pub open spec fn elem_gds(gs: Seq<gds21::GdsElement>, e: Element) -> bool {
-    &&& nums_of(e.layer, e.purpose) is Some &&& gs.len() == (if e.net is Some { 2int } else { 1int })
-    &&& shape_gds(e.inner, gs[0], nums_of(e.layer, e.purpose)->0)
-    &&& e.net is Some ==> nums_of(e.layer, LayerPurpose::Label) is Some && label_gds(gs[1], e.net->0@, e.inner, nums_of(e.layer, LayerPurpose::Label)->0)
-}
-pub open spec fn gds_count(e: Element) -> int { if e.net is Some { 2 } else { 1 } }
-/// `gs` is the concatenation of the exports of `es`, in order
-pub open spec fn elems_gds(gs: Seq<gds21::GdsElement>, es: Seq<Element>) -> bool decreases es.len() {
-    if es.len() == 0 { gs.len() == 0 } else {
-        let n = gds_count(es.last());
-        gs.len() >= n && elems_gds(gs.take(gs.len() - n), es.drop_last()) && elem_gds(gs.skip(gs.len() - n), es.last())
-    }
-}
-pub open spec fn sref_gds(g: gds21::GdsStructRef, inst: Instance) -> bool {
-    &&& fits32(inst.loc) &&& same_pt(g.xy, inst.loc)
-    &&& (inst.reflect_vert || inst.angle is Some) == (g.strans is Some)
-    &&& g.strans is Some ==> (g.strans->0.reflected == inst.reflect_vert && g.strans->0.angle == inst.angle && !g.strans->0.abs_mag && !g.strans->0.abs_angle && g.strans->0.mag is None)
-}
-// =====================================================================================================
-// EXPORTER (layout21raw/src/gds.rs), extracted
-// =====================================================================================================
-//@ item layout21utils/src/context.rs :: enum ErrorContext
-//@ end
-// R5: the exporter without its `lib: &Library` field (only layer lookup uses it; that is outside the unit)
-//@ item layout21raw/src/gds.rs :: struct GdsExporter
-//@   sub R5 /lib: &'lib Library,/ => pub lib: &'lib Library,
-//@   sub R4 /\n    ctx:/ => \n    pub ctx:
-//@ end
-//@ item layout21raw/src/data.rs :: enum Units
-//@   derive Debug, Clone, Copy
-//@ end
-/// R5: the raw Library reduced to the fields export_lib reads; `cells: PtrList<Cell>` as Vec<Ptr<Cell>>; borrowed as in the source
-pub struct Library { pub name: String, pub units: Units, pub cells: Vec<Ptr<Cell>> }
-/// ORACLE (C07, "unit mapping both ways"): GDSII UNITS = (database unit in user units, database unit in metres), user unit one micron
-pub open spec fn gds_units_of(u: Units) -> (f64, f64) {
-    match u { Units::Micro => (1.0f64, 1e-6f64), Units::Nano => (1e-3f64, 1e-9f64), Units::Angstrom => (1e-4f64, 1e-10f64), Units::Pico => (1e-6f64, 1e-12f64) }
-}
-impl<'lib> GdsExporter<'lib> {
-//@ fn layout21raw/src/gds.rs :: impl<'lib> GdsExporter<'lib> :: fn export_point
-//@   ret r
-//@   spec
-//|     ensures final(self).ctx == old(self).ctx, r is Ok <==> fits32(*pt), r is Ok ==> same_pt(r->Ok_0, *pt),
-//@ end
-    /// ASSUMED element-wise contract of `points.iter().map(|p| self.export_point(p)).collect::<Result<Vec<_>, _>>()?` (rule R6)
-    #[verifier::external_body]
-    fn vp_export_points(&mut self, pts: &Vec<Point>) -> (r: LayoutResult<Vec<gds21::GdsPoint>>)
-        ensures final(self).ctx == old(self).ctx, r is Ok <==> all_fit32(pts@), r is Ok ==> same_pts(r->Ok_0@, pts@),
-    { unimplemented!() }
-//@ fn layout21raw/src/gds.rs :: impl<'lib> GdsExporter<'lib> :: fn export_shape
-//@   ret r
-//@   sub R6 /poly\s*\.points\s*\.iter\(\)\s*\.map\(\|p\| self\.export_point\(p\)\)\s*\.collect::<Result<Vec<_>, _>>\(\)\?/ => self.vp_export_points(&poly.points)?
-//@   sub R3 /let mut xy = Vec::new\(\);/ => let mut xy: Vec<gds21::GdsPoint> = Vec::new();
-//@   spec
-//|     requires match *shape { Shape::Polygon(p) => p.points.len() >= 1, Shape::Path(p) => p.points.len() >= 1, _ => true },
-//|     ensures r is Ok ==> final(self).ctx@ == old(self).ctx@ && shape_gds(*shape, r->Ok_0, *layerspec),
-//@   loop 1 iter it
-//|                     invariant self.ctx == old(self).ctx, same_pts(xy@, path.points@.take(it.index@ as int)), it.index@ <= path.points@.len(),
-//@   loopend 1
-//|                     proof { assert(path.points@.take(it.index@ + 1) == path.points@.take(it.index@ as int).push(*p)); }
-//@ end
-//@ fn layout21raw/src/gds.rs :: impl<'lib> GdsExporter<'lib> :: fn export_shape_label
-//@   ret r
-//@   sub R5 /net: &str,/ => net: &String,
-//@   sub R5 /string: net\.into\(\),/ => string: net.clone(),
-//@   spec
-//|     requires shape_ok(*shape),
-//|     ensures r is Ok ==> final(self).ctx@ == old(self).ctx@ && label_gds(r->Ok_0, net@, *shape, *layerspec),
-//@ end
-}
-
-// model of #[derive(PartialEq)] on Point (field-wise equality): Verus gives derived comparisons no meaning — assumption
-impl vstd::std_specs::cmp::PartialEqSpecImpl for Point {
-    open spec fn obeys_eq_spec() -> bool { true }
-    open spec fn eq_spec(&self, other: &Self) -> bool { self.x == other.x && self.y == other.y }
-}
-impl PartialEq for Point { fn eq(&self, other: &Self) -> bool { self.x == other.x && self.y == other.y } }
-
-// =====================================================================================================
-// IMPORTER models (rule R5)
-// =====================================================================================================
-/// model of layout21utils::Ptr<T> (Arc<RwLock<T>>): an opaque shared handle; clone yields the same handle
-pub struct Ptr<T> { pub id: usize, pub _p: core::marker::PhantomData<T> }
-impl<T> Ptr<T> {
-    #[verifier::external_body]
-    pub fn clone(this: &Ptr<T>) -> (r: Ptr<T>) ensures r == *this { unimplemented!() }
-}
-impl<T> Clone for Ptr<T> {
-    #[verifier::external_body]
-    fn clone(&self) -> (r: Ptr<T>) ensures r == *self { unimplemented!() }
-}
-pub struct Cell { pub name: String }
-impl Ptr<Cell> {
-    /// model of Ptr::read (RwLock read): the pointee, or a lock-poison error
-    #[verifier::external_body]
-    pub fn read(&self) -> (r: LayoutResult<&Cell>) { unimplemented!() }
-}
-/// model of `HashMap<String, Ptr<Cell>>` used read-only by the element importers
-pub struct CellMap { pub m: Vec<Ptr<Cell>> }
-impl CellMap {
-    pub uninterp spec fn lookup(&self, k: Seq<char>) -> Option<Ptr<Cell>>;
-    #[verifier::external_body]
-    pub fn get(&self, k: &String) -> (r: Option<&Ptr<Cell>>)
-        ensures (r is Some) == (self.lookup(k@) is Some), r is Some ==> *r->0 == self.lookup(k@)->0,
-    { unimplemented!() }
-}
-/// model of layout21utils::Unwrapper for Option (Some(t) => Ok(t), None => helper.fail(msg))
-pub trait Unwrapper: Sized {
-    type Ok;
-    spec fn some_spec(&self) -> Option<Self::Ok>;
-    fn unwrapper<M>(self, helper: &GdsImporter, msg: M) -> (r: Result<Self::Ok, LayoutError>)
-        ensures self.some_spec() is Some ==> r == Ok::<Self::Ok, LayoutError>(self.some_spec()->0), self.some_spec() is None ==> r is Err;
-}
-impl<T> Unwrapper for Option<T> {
-    type Ok = T;
-    open spec fn some_spec(&self) -> Option<T> { *self }
-    #[verifier::external_body]
-    fn unwrapper<M>(self, helper: &GdsImporter, msg: M) -> (r: Result<T, LayoutError>) { match self { Some(t) => Ok(t), None => Err(LayoutError { }) } }
-}
-//@ item layout21raw/src/data.rs :: struct Instance
-//@ end
-// R5: the importer reduced to the fields the element converters touch
-//@ item layout21raw/src/gds.rs :: struct GdsImporter
-//@   sub R5 /pub layers: Ptr<Layers>,/ =>
-//@   sub R5 /unsupported: Vec<gds21::GdsElement>,/ =>
-//@   sub R5 /cell_map: HashMap<String, Ptr<Cell>>,/ => pub cell_map: CellMap,
-//@   sub R5 /lib: Library,/ =>
-//@   sub R4 /\n    ctx:/ => \n    pub ctx:
-//@ end
-/// R11: the floating-point expressions of the rotated-array branch, each wrapped verbatim (Verus has no f64 arithmetic or f64->int cast).
-/// ASSUMED: |x cos a -/+ y sin a| <= |x| + |y| + 1, so for 32-bit x, y the saturating cast lands within +-2^33.
-#[verifier::external_body]
-pub fn vp_rot_x(x: f64, y: f64, a: f64) -> (r: isize) ensures -0x2_0000_0000 <= r <= 0x2_0000_0000 { (x * a.cos() - y * a.sin()) as isize }
-#[verifier::external_body]
-pub fn vp_rot_y(x: f64, y: f64, a: f64) -> (r: isize) ensures -0x2_0000_0000 <= r <= 0x2_0000_0000 { (x * a.sin() + y * a.cos()) as isize }
-#[verifier::external_body]
-pub fn vp_i32_as_f64(x: i32) -> f64 { f64::from(x) }
-pub assume_specification [f64::to_radians] (x: f64) -> f64;
-pub open spec fn idx(jx: int, w: int, jy: int) -> int { jx * w + jy }
-proof fn lemma_idx(jx: int, jy: int, ix: int, w: int)
-    requires 0 <= jx < ix, 0 <= jy < w,
-    ensures 0 <= jx * w + jy < ix * w,
-{
-    assert(jx * w + jy < ix * w) by (nonlinear_arith) requires 0 <= jx < ix, 0 <= jy < w;
-    assert(0 <= jx * w + jy) by (nonlinear_arith) requires 0 <= jx, 0 <= jy, 0 < w;
-}
-proof fn lemma_step_bound(d: int, c: int, k: int)
-    requires -0x1_0000_0000 <= d <= 0x1_0000_0000, 0 < c <= 0x7fff, 0 <= k < c,
-    ensures -0x1_0000_0000 <= k * tdiv(d, c) <= 0x1_0000_0000, -0x1_0000_0000 <= tdiv(d, c) <= 0x1_0000_0000,
-{
-    let q = tdiv(d, c);
-    if d >= 0 {
-        assert(0 <= q <= d) by (nonlinear_arith) requires q == d / c, d >= 0, c > 0;
-        assert(k * q <= c * q) by (nonlinear_arith) requires 0 <= k < c, q >= 0;
-        assert(c * q <= d) by (nonlinear_arith) requires q == d / c, d >= 0, c > 0;
-        assert(0 <= k * q) by (nonlinear_arith) requires 0 <= k, q >= 0;
-    } else {
-        let e = -d; let p = e / c;
-        assert(0 <= p <= e) by (nonlinear_arith) requires p == e / c, e >= 0, c > 0;
-        assert(k * p <= c * p) by (nonlinear_arith) requires 0 <= k < c, p >= 0;
-        assert(c * p <= e) by (nonlinear_arith) requires p == e / c, e >= 0, c > 0;
-        assert(0 <= k * p) by (nonlinear_arith) requires 0 <= k, p >= 0;
-        assert(k * q == -(k * p)) by (nonlinear_arith) requires q == -p;
-    }
-}
-
-// ---- SPEC for import ----
-/// the four corners of an axis-aligned rectangle walked in either direction (what import_boundary recognises)
-pub open spec fn rect_walk(p: Seq<Point>) -> bool {
-    p.len() == 4 && ((p[0].x == p[1].x && p[1].y == p[2].y && p[2].x == p[3].x && p[3].y == p[0].y)
-        || (p[0].y == p[1].y && p[1].x == p[2].x && p[2].y == p[3].y && p[3].x == p[0].x))
-}
-pub open spec fn rect_walk_g(p: Seq<gds21::GdsPoint>) -> bool {
-    (p[0].x == p[1].x && p[1].y == p[2].y && p[2].x == p[3].x && p[3].y == p[0].y)
-        || (p[0].y == p[1].y && p[1].x == p[2].x && p[2].y == p[3].y && p[3].x == p[0].x)
-}
-/// truncating division, as Rust's `/` on signed integers
-pub open spec fn tdiv(a: int, b: int) -> int { if a >= 0 { a / b } else { -((-a) / b) } }
-
-impl GdsImporter {
-    /// model of ErrorHelper::fail: always an error
-    #[verifier::external_body]
-    fn fail<T, M>(&self, msg: M) -> (r: LayoutResult<T>) ensures r is Err { Err(LayoutError { }) }
-    /// layer lookup/creation (Ptr<Layers>, HashMap, SlotMap) is outside the unit: any result
-    #[verifier::external_body]
-    fn import_element_layer<E>(&mut self, elem: &E) -> (r: LayoutResult<(LayerKey, LayerPurpose)>)
-        ensures final(self).cell_map == old(self).cell_map,
-    { unimplemented!() }
-//@ fn layout21raw/src/gds.rs :: impl GdsImporter :: fn import_point
-//@   ret r
-//@   spec
-//|     ensures r is Ok, same_pt(*pt, r->Ok_0), final(self).cell_map == old(self).cell_map,
-//@ end
-    /// ASSUMED element-wise contract of `pts.iter().map(|p| self.import_point(p)).collect::<Result<Vec<_>, _>>()` (rule R6)
-    #[verifier::external_body]
-    fn import_point_vec(&mut self, pts: &Vec<gds21::GdsPoint>) -> (r: LayoutResult<Vec<Point>>)
-        ensures r is Ok, same_pts(pts@, r->Ok_0@), final(self).cell_map == old(self).cell_map,
-    { unimplemented!() }
-//@ fn layout21raw/src/gds.rs :: impl GdsImporter :: fn import_boundary
-//@   ret r
-//@   spec
-//|     ensures r is Ok ==> ({
-//|         let n = x.xy@.len() as int; let e = r->Ok_0;
-//|         &&& n >= 1 &&& x.xy@[0] == x.xy@[n - 1] &&& e.net is None
-//|         &&& match e.inner {
-//|             Shape::Rect(rc) => n == 5 && same_pt(x.xy@[0], rc.p0) && same_pt(x.xy@[2], rc.p1) && rect_walk_g(x.xy@),
-//|             Shape::Polygon(pg) => same_pts(x.xy@.take(n - 1), pg.points@) && !(n == 5 && rect_walk_g(x.xy@)),
-//|             Shape::Path(_) => false,
-//|         }
-//|     }),
-//@ end
-//@ fn layout21raw/src/gds.rs :: impl GdsImporter :: fn import_box
-//@   ret r
-//@   spec
-//|     ensures r is Ok ==> (r->Ok_0.net is None && match r->Ok_0.inner { Shape::Rect(rc) => same_pt(x.xy@[0], rc.p0) && same_pt(x.xy@[2], rc.p1), _ => false }),
-//@ end
-//@ fn layout21raw/src/gds.rs :: impl GdsImporter :: fn import_path
-//@   ret r
-//@   spec
-//|     ensures r is Ok ==> (r->Ok_0.net is None && x.width is Some && match r->Ok_0.inner {
-//|         Shape::Path(p) => same_pts(x.xy@, p.points@) && (x.width->0 >= 0 ==> p.width == x.width->0),
-//|         _ => false }),
-//|         x.width is None ==> r is Err,
-//@ end
-}
-
-
-impl GdsImporter {
-//@ fn layout21raw/src/gds.rs :: impl GdsImporter :: fn import_instance
-//@   ret r
-//@   sub R7 /let inst_name = ""\.into\(\);/ => let inst_name = String::new();
-//@   spec
-//|     ensures r is Ok ==> ({
-//|         let i = r->Ok_0;
-//|         &&& old(self).cell_map.lookup(sref.name@) == Some(i.cell)
-//|         &&& same_pt(sref.xy, i.loc)
-//|         &&& match sref.strans { None => !i.reflect_vert && i.angle is None, Some(st) => !st.abs_mag && !st.abs_angle && i.reflect_vert == st.reflected && i.angle == st.angle }
-//|     }),
-//|         old(self).cell_map.lookup(sref.name@) is None ==> r is Err,
-//|         (sref.strans is Some && (sref.strans->0.abs_mag || sref.strans->0.abs_angle)) ==> r is Err,
-//@ end
-//@ fn layout21raw/src/gds.rs :: impl GdsImporter :: fn import_instance_array
-//@   ret r
-//@   sub R11 /\(prev_xy\.0 \* a\.cos\(\) - prev_xy\.1 \* a\.sin\(\)\) as Int/ => vp_rot_x(prev_xy.0, prev_xy.1, a)
-//@   sub R11 /\(prev_xy\.0 \* a\.sin\(\) \+ prev_xy\.1 \* a\.cos\(\)\) as Int/ => vp_rot_y(prev_xy.0, prev_xy.1, a)
-//@   sub R11 /let prev_xy = \(f64::from\(prev_xy\.0\), f64::from\(prev_xy\.1\)\);/ => let prev_xy = (vp_i32_as_f64(prev_xy.0), vp_i32_as_f64(prev_xy.1));
-//@   let insts : Vec<Instance>
-//@   spec
-//|     ensures
-//|         // no array placement is silently dropped: either an error or the placements
-//|         r is Ok ==> r->Ok_0 is Some,
-//|         // non-positive counts are an error, never a division by zero
-//|         (aref.cols <= 0 || aref.rows <= 0) ==> !(r is Ok && r->Ok_0 is Some),
-//|         old(self).cell_map.lookup(aref.name@) is None ==> r is Err,
-//|         // un-rotated arrays: cols x rows placements on the lattice spanned by the three points
-//|         (r is Ok && r->Ok_0 is Some && (aref.strans is None || aref.strans->0.angle is None)) ==> ({
-//|             let v = r->Ok_0->0@; let c = aref.cols as int; let w = aref.rows as int;
-//|             let xs = tdiv(aref.xy@[1].x - aref.xy@[0].x, c); let ys = tdiv(aref.xy@[2].y - aref.xy@[0].y, w);
-//|             &&& c > 0 && w > 0 &&& v.len() == c * w
-//|             &&& forall|ix: int, iy: int| 0 <= ix < c && 0 <= iy < w ==> ({
-//|                     let i = v[#[trigger] idx(ix, w, iy)];
-//|                     &&& i.loc.x == aref.xy@[0].x + ix * xs &&& i.loc.y == aref.xy@[0].y + iy * ys
-//|                     &&& Some(i.cell) == old(self).cell_map.lookup(aref.name@) &&& i.angle is None
-//|                     &&& i.reflect_vert == (aref.strans is Some && aref.strans->0.reflected)
-//|                 })
-//|         }),
-//@   before /Create the Instances/
-//|         let ghost rotated = aref.strans is Some && aref.strans->0.angle is Some;
-//|         let ghost c = aref.cols as int; let ghost w = aref.rows as int;
-//|         let ghost xs = tdiv(aref.xy@[1].x - aref.xy@[0].x, c); let ghost ys = tdiv(aref.xy@[2].y - aref.xy@[0].y, w);
-//|         proof {
-//|             lemma_step_bound(aref.xy@[1].x - aref.xy@[0].x, c, 0); lemma_step_bound(aref.xy@[2].y - aref.xy@[0].y, w, 0);
-//|             assert(!rotated ==> xstep == xs && ystep == ys);
-//|             assert(c * w <= 0x7fff * 0x7fff) by (nonlinear_arith) requires 0 < c <= 0x7fff, 0 < w <= 0x7fff;
-//|             assert(0 * w == 0) by (nonlinear_arith);
-//|             assert((aref.rows as usize) as int == w && (aref.cols as usize) as int == c);
-//|             assert(w * c <= 0x7fff * 0x7fff) by (nonlinear_arith) requires 0 < c <= 0x7fff, 0 < w <= 0x7fff;
-//|         }
-//@   loop 1
-//|             invariant c == aref.cols as int, w == aref.rows as int, 0 < c <= 0x7fff, 0 < w <= 0x7fff,
-//|                 -0x2_0000_0000 <= xstep <= 0x2_0000_0000, -0x2_0000_0000 <= ystep <= 0x2_0000_0000,
-//|                 same_pt(aref.xy@[0], p0), !rotated ==> (xstep == xs && ystep == ys && angle is None),
-//|                 xs == tdiv(aref.xy@[1].x - aref.xy@[0].x, c), ys == tdiv(aref.xy@[2].y - aref.xy@[0].y, w),
-//|                 reflect_vert == (aref.strans is Some && aref.strans->0.reflected),
-//|                 Some(cell) == old(self).cell_map.lookup(aref.name@),
-//|                 insts@.len() == ix * w,
-//|                 forall|jx: int, jy: int| 0 <= jx < ix && 0 <= jy < w ==> ({
-//|                     let i = insts@[#[trigger] idx(jx, w, jy)];
-//|                     &&& (!rotated ==> i.loc.x == p0.x + jx * xs && i.loc.y == p0.y + jy * ys && i.angle is None)
-//|                     &&& i.cell == cell &&& i.reflect_vert == reflect_vert
-//|                 }),
-//@   before /let x = p0\.x \+ ix \* xstep;/
-//|             proof {
-//|                 assert(-0x2_0000_0000 * 0x8000 <= ix * xstep <= 0x2_0000_0000 * 0x8000) by (nonlinear_arith) requires 0 <= ix < 0x8000, -0x2_0000_0000 <= xstep <= 0x2_0000_0000;
-//|             }
-//@   loop 2
-//|                 invariant c == aref.cols as int, w == aref.rows as int, 0 < c <= 0x7fff, 0 < w <= 0x7fff, 0 <= ix < c,
-//|                     -0x2_0000_0000 <= xstep <= 0x2_0000_0000, -0x2_0000_0000 <= ystep <= 0x2_0000_0000,
-//|                     same_pt(aref.xy@[0], p0), !rotated ==> (xstep == xs && ystep == ys && angle is None),
-//|                     x == p0.x + ix * xstep,
-//|                     reflect_vert == (aref.strans is Some && aref.strans->0.reflected),
-//|                     Some(cell) == old(self).cell_map.lookup(aref.name@),
-//|                     insts@.len() == ix * w + iy,
-//|                     forall|jx: int, jy: int| 0 <= jx < ix && 0 <= jy < w ==> ({
-//|                         let i = insts@[#[trigger] idx(jx, w, jy)];
-//|                         &&& (!rotated ==> i.loc.x == p0.x + jx * xs && i.loc.y == p0.y + jy * ys && i.angle is None)
-//|                         &&& i.cell == cell &&& i.reflect_vert == reflect_vert
-//|                     }),
-//|                     forall|jy: int| 0 <= jy < iy ==> ({
-//|                         let i = insts@[#[trigger] idx(ix as int, w, jy)];
-//|                         &&& (!rotated ==> i.loc.x == p0.x + ix * xs && i.loc.y == p0.y + jy * ys && i.angle is None)
-//|                         &&& i.cell == cell &&& i.reflect_vert == reflect_vert
-//|                     }),
-//@   before /let y = p0\.y \+ iy \* ystep;/
-//|                 let ghost before = insts@;
-//|                 proof {
-//|                     assert(-0x2_0000_0000 * 0x8000 <= iy * ystep <= 0x2_0000_0000 * 0x8000) by (nonlinear_arith) requires 0 <= iy < 0x8000, -0x2_0000_0000 <= ystep <= 0x2_0000_0000;
-//|                 }
-//@   loopend 2
-//|                 proof {
-//|                     assert(insts@ == before.push(insts@.last()));
-//|                     assert forall|jx: int, jy: int| 0 <= jx < ix && 0 <= jy < w implies insts@[#[trigger] idx(jx, w, jy)] == before[idx(jx, w, jy)] by { lemma_idx(jx, jy, ix as int, w); }
-//|                     assert forall|jy: int| 0 <= jy < iy implies insts@[#[trigger] idx(ix as int, w, jy)] == before[idx(ix as int, w, jy)] by {}
-//|                 }
-//@   loopend 1
-//|             proof {
-//|                 assert((ix + 1) * w == ix * w + w) by (nonlinear_arith);
-//|                 assert forall|jx: int, jy: int| 0 <= jx < ix + 1 && 0 <= jy < w implies ({
-//|                     let i = insts@[#[trigger] idx(jx, w, jy)];
-//|                     &&& (!rotated ==> i.loc.x == p0.x + jx * xs && i.loc.y == p0.y + jy * ys && i.angle is None)
-//|                     &&& i.cell == cell &&& i.reflect_vert == reflect_vert
-//|                 }) by { if jx < ix { } else { assert(jx == ix); } }
-//|             }
-//@ end
-}
-impl<'lib> GdsExporter<'lib> {
-//@ fn layout21raw/src/gds.rs :: impl<'lib> GdsExporter<'lib> :: fn export_instance
-//@   ret r
-//@   sub R6 /inst\.angle\.map\(\|a\| f64::from\(a\)\)/ => inst.angle
-//@   spec
-//|     ensures r is Ok ==> final(self).ctx@ == old(self).ctx@ && sref_gds(r->Ok_0, *inst),
-//@   before /^        Ok\(gdsinst\)$/
-//|         proof { assert(self.ctx@ =~= old(self).ctx@); }
-//@ end
-    /// ASSUMED contract of export_cell (layout if present, else abstract, else nothing; not extracted: needs the abstract exporter)
-    #[verifier::external_body]
-    fn export_cell(&mut self, cell: &Cell) -> (r: LayoutResult<Option<gds21::GdsStruct>>)
-        ensures final(self).lib == old(self).lib, r is Ok ==> final(self).ctx@ == old(self).ctx@,
-    { unimplemented!() }
-//@ fn layout21raw/src/gds.rs :: impl<'lib> GdsExporter<'lib> :: fn export_lib
-//@   ret r
-//@   spec
-//|     ensures r is Ok ==> final(self).ctx@ == old(self).ctx@ && r->Ok_0.name@ == old(self).lib.name@
-//|         // the database unit of each raw length unit, with a one-micron user unit
-//|         && r->Ok_0.units.0 == gds_units_of(old(self).lib.units).0 && r->Ok_0.units.1 == gds_units_of(old(self).lib.units).1
-//|         && r->Ok_0.structs@.len() <= old(self).lib.cells@.len(),
-//@   after /self\.ctx\.push\(ErrorContext::Library\(self\.lib\.name\.clone\(\)\)\);/
-//|         let ghost c0 = self.ctx@;
-//|         proof { assert(c0.drop_last() =~= old(self).ctx@); }
-//@   loop 1 iter it
-//|             invariant self.lib == old(self).lib, self.ctx@ == c0, c0.len() > 0, c0.drop_last() == old(self).ctx@,
-//|                 gdslib.name@ == self.lib.name@, gdslib.units.0 == gds_units_of(self.lib.units).0, gdslib.units.1 == gds_units_of(self.lib.units).1,
-//|                 gdslib.structs@.len() <= it.index@, it.index@ <= self.lib.cells@.len(),
-//@ end
-    /// model of GdsExporter::export_layerspec (reads the library's layer table): the pair's numbers, or an error if the layer or the purpose is not defined
-    #[verifier::external_body]
-    pub fn export_layerspec(&mut self, layer: &LayerKey, purpose: &LayerPurpose) -> (r: LayoutResult<gds21::GdsLayerSpec>)
-        ensures final(self).ctx == old(self).ctx, r is Ok <==> nums_of(*layer, *purpose) is Some, r is Ok ==> r->Ok_0 == nums_of(*layer, *purpose)->0,
-    { unimplemented!() }
-//@ fn layout21raw/src/gds.rs :: impl<'lib> GdsExporter<'lib> :: fn export_element
-//@   ret r
-//@   spec
-//|     requires shape_pre(elem.inner),
-//|     ensures r is Ok ==> final(self).ctx@ == old(self).ctx@ && elem_gds(r->Ok_0@, *elem),
-//@ end
-//@ fn layout21raw/src/gds.rs :: impl<'lib> GdsExporter<'lib> :: fn export_layout
-//@   ret r
-//@   sub R6 /for gdselem in self\.export_element\(elem\)\?\.into_iter\(\) \{\s*elems\.push\(gdselem\);\s*\}/ => vp_extend_gds(&mut elems, self.export_element(elem)?);
-//@   sub R3 /let mut elems = Vec::with_capacity/ => let mut elems: Vec<gds21::GdsElement> = Vec::with_capacity
-//@   spec
-//|     requires cell.elems@.len() + cell.insts@.len() <= usize::MAX, forall|i: int| 0 <= i < cell.elems@.len() ==> shape_pre((#[trigger] cell.elems@[i]).inner),
-//|     ensures r is Ok ==> ({
-//|         let g = r->Ok_0; let n = cell.insts@.len() as int;
-//|         &&& final(self).ctx@ == old(self).ctx@ &&& g.name@ == cell.name@ &&& g.elems@.len() >= n
-//|         // first one structure reference per instance, in order
-//|         &&& forall|i: int| 0 <= i < n ==> (#[trigger] g.elems@[i]) is GdsStructRef && sref_gds(g.elems@[i]->GdsStructRef_0, cell.insts@[i])
-//|         // then the exports of the elements, in order
-//|         &&& elems_gds(g.elems@.skip(n), cell.elems@)
-//|     }),
-//@   loop 1 iter it
-//|             invariant self.ctx@ == old(self).ctx@.push(ErrorContext::Impl), elems@.len() == it.index@, it.index@ <= cell.insts@.len(),
-//|                 forall|i: int| 0 <= i < cell.elems@.len() ==> shape_pre((#[trigger] cell.elems@[i]).inner),
-//|                 forall|i: int| 0 <= i < it.index@ ==> (#[trigger] elems@[i]) is GdsStructRef && sref_gds(elems@[i]->GdsStructRef_0, cell.insts@[i]),
-//@   loop 2 iter it
-//|             invariant self.ctx@ == old(self).ctx@.push(ErrorContext::Impl).push(ErrorContext::Geometry), elems@.len() >= cell.insts@.len(), it.index@ <= cell.elems@.len(),
-//|                 forall|i: int| 0 <= i < cell.elems@.len() ==> shape_pre((#[trigger] cell.elems@[i]).inner),
-//|                 forall|i: int| 0 <= i < cell.insts@.len() ==> (#[trigger] elems@[i]) is GdsStructRef && sref_gds(elems@[i]->GdsStructRef_0, cell.insts@[i]),
-//|                 elems_gds(elems@.skip(cell.insts@.len() as int), cell.elems@.take(it.index@ as int)),
-//@   before /vp_extend_gds\(&mut elems/
-//|             let ghost e0 = elems@;
-//@   loopend 2
-//|             proof {
-//|                 let n = cell.insts@.len() as int; let t1 = cell.elems@.take(it.index@ + 1); let c = gds_count(*elem);
-//|                 assert(t1.drop_last() == cell.elems@.take(it.index@ as int)); assert(t1.last() == *elem);
-//|                 let a = elems@.skip(n); let a0 = e0.skip(n);
-//|                 assert(elems@.len() == e0.len() + c);
-//|                 assert(a.take(a.len() - c) =~= a0);
-//|                 assert(a.skip(a.len() - c) =~= elems@.skip(e0.len() as int));
-//|                 assert forall|i: int| 0 <= i < n implies (#[trigger] elems@[i]) is GdsStructRef && sref_gds(elems@[i]->GdsStructRef_0, cell.insts@[i]) by { assert(elems@[i] == e0[i]); }
-//|             }
-//@   before /let mut strukt = gds21::GdsStruct::new\(&cell\.name\);/
-//|         proof { assert(cell.elems@.take(cell.elems@.len() as int) == cell.elems@); }
-//@   before /^        Ok\(strukt\)$/
-//|         proof { assert(self.ctx@ =~= old(self).ctx@); }
-//@ end
-}
-/// model of pushing every element of a Vec in order (`for x in v.into_iter() { w.push(x) }`, rule R6)
-#[verifier::external_body]
-pub fn vp_extend_gds(v: &mut Vec<gds21::GdsElement>, w: Vec<gds21::GdsElement>) ensures final(v)@ == old(v)@ + w@ { v.extend(w) }
-//@ item layout21raw/src/data.rs :: struct Layout
-//@ end
-//@ item layout21raw/src/data.rs :: struct TextElement
-//@ end
-
+//@ include units/raw_gds/gds.inc.rs
 proof fn canary_shape_ok(s: Shape) requires shape_ok(s), s is Path ensures false {}
 }
 fn main() {}
